@@ -16,7 +16,7 @@ ID = "C04"
 LEVEL = "exploration"
 TECHNIQUE = "runtime monitor: protocol-table lock-step + notification-stream automaton over bounded-exhaustive command sequences; deterministic overlap forcing via listener rendezvous; sys.monitoring line-level delay injection for storms"
 RULE = ("family seq: ALL sequences over {initialize, start, step, stop, run_up_to(mid), run_up_to_including(mid), "
-        "end_replication, cleanup} up to length 4 (quick) / 5 (thorough) on a fixed float-clock program, plus seeded random "
+        "end_replication, cleanup} up to length 4 (quick) / 6 (thorough) on a fixed float-clock program, plus seeded random "
         "sequences of length 5-9 on float/int/Duration programs; family gate: after every prefix of length <= 1 (quick) / 2 "
         "(thorough) that leaves the simulator startable, the run thread is parked in a handler and each of the 8 commands is "
         "issued against it; family inside: each command from a handler and from listeners of each notification type; family "
@@ -65,12 +65,12 @@ def _prefixes(tier):
 
 
 def _layout(tier):
-    L = 4 if tier == "quick" else 5
+    L = 4 if tier == "quick" else 6
     nrand = 600 if tier == "quick" else 30000
     ngate = len(_prefixes(tier)) * 2 * 8
     ninside = len(SITES) * 8 * (2 if tier == "quick" else 3)
     novl = len(OVERLAPS) * 3
-    nstorm = 48 if tier == "quick" else 4000
+    nstorm = 48 if tier == "quick" else 12000
     return L, _nseq(L), nrand, ngate, ninside, novl, nstorm
 
 
